@@ -226,6 +226,181 @@ def check_family(ctx, report, rule, facts, config, families, only=None):
     return n
 
 
+KNOWN_CARRIERS = None   # filled by carrier_fields()
+
+
+def carrier_fields():
+    return {
+        A.STAGE: ["groups"],
+        A.SD: ["stages"],
+        A.DISP: ["inner", "thread_local"],
+        A.BCS: ["controller", "dispatcher"],
+        A.MD: ["controller"],
+        A.AD: ["thread_local"],
+        A.AD_INNER: ["stages"],
+        A.PAR: ["head", "tail"],
+        A.SEQ: ["head", "tail"],
+        A.PARSEQ: ["run"],
+    }
+
+
+LIFECYCLE_TRAITS = (A.T_SYSTEM, A.T_RUNNOW, A.T_RUNWITHPOOL, A.T_BATCHCTRL)
+
+
+def _holds_systems(ty, heads):
+    return A.T_RUNNOW in ty or any((c + "<") in ty or ty == c or (c + ">") in ty or ty.endswith(c) or (c + ",") in ty for c in heads)
+
+
+def found_carriers(facts):
+    """Types of the crate outside the audited table that take part in a lifecycle (they implement System / RunNow / RunWithPool /
+    BatchController) and keep systems or another carrier in a field: {type: [fields]}.  They owe what the audited ones owe."""
+    known = carrier_fields()
+    heads = set(known)
+    out = {}
+    for im in facts.impls:
+        head = im.get("self_head")
+        if im.get("trait") not in LIFECYCLE_TRAITS or not isinstance(head, str) or head in known or head not in facts.adts:
+            continue
+        fls = []
+        for v in facts.adts[head]["variants"]:
+            for f in v["fields"]:
+                ty = f["ty"]
+                if ty.startswith("&") and not ty.startswith("&mut") and " mut " not in ty.split("<", 1)[0]:
+                    continue
+                hd = f.get("head")
+                generic = isinstance(hd, str) and hd.startswith("param:") and any(
+                    (": " + t + "<") in p_ or p_.endswith(": " + t) for p_ in im.get("preds", []) if p_.split(":", 1)[0].split()[-1] == hd[6:] for t in LIFECYCLE_TRAITS)
+                if (_holds_systems(ty, heads) or generic) and f["name"] not in fls:
+                    fls.append(f["name"])
+        if fls:
+            out[head] = sorted(set(out.get(head, []) + fls))
+    return out
+
+
+def all_carriers(facts):
+    c = dict(carrier_fields())
+    c.update(found_carriers(facts))
+    return c
+
+
+def carrier_paths(facts, head, depth=3):
+    """Field paths from a carrier type to the carrier fields it holds, directly or through another carrier held by value."""
+    carriers = all_carriers(facts)
+    out = []
+    adt = facts.adts.get(head)
+    for fl in carriers.get(head, []):
+        out.append([fl])
+        if adt is None or depth <= 1:
+            continue
+        ty = ""
+        for v in adt["variants"]:
+            for f in v["fields"]:
+                if f["name"] == fl:
+                    ty = f["ty"]
+        inner = ty.split("<", 1)[0]
+        if inner in carriers and inner != head:
+            out.extend([fl] + p for p in carrier_paths(facts, inner, depth - 1))
+    return out
+
+
+def unlisted(ctx, report, rule, facts, config, families, only=None):
+    """Methods of a carrier that are not in the FANOUT table (a new dispatch variant, a helper that runs part of a stage) but
+    hand the carrier's systems to a lifecycle family: whatever they are called, on each carrier field they touch that way they
+    owe the same thing as the listed ones - every element exactly once on every way through, or not at all."""
+    prog = ctx.program(facts)
+    parallel = ctx.parallel(config)
+    try:
+        tab = table(facts, parallel)
+    except AnchorError:
+        return      # reported by check_family
+    listed = set(body.key for _, _, body, _ in tab if hasattr(body, "blocks"))
+    carriers = all_carriers(facts)
+
+    def root_of(b):
+        return facts.bodies.get(b.root_key, b) if b.is_closure and b.root_key else b
+
+    n = 0
+    for family in families:
+        names = LIFECYCLE[family]
+        member = set()
+        changed = True
+        while changed:
+            changed = False
+            for b in facts.bodies.values():
+                r = root_of(b)
+                if r.key in member or not isinstance(r.self_head, str) or r.self_head not in carriers or r.key in listed:
+                    continue
+                for bb, t in b.normal_calls():
+                    c = Callee(t["func"])
+                    if c.key == r.key or c.resolved_key == r.key:
+                        continue
+                    if (c.name in names and (c.trait in (A.T_RUNNOW, A.T_SYSTEM, A.T_RUNWITHPOOL, A.T_BATCHCTRL) or (isinstance(c.self_head, str) and c.self_head in carriers))) or c.key in member or c.resolved_key in member:
+                        member.add(r.key)
+                        changed = True
+                        break
+
+        # helpers (not API, called from within the crate) are looked into where they are called; what is held to the rule
+        # itself is what a user, or a trait object, can invoke
+        callers_ = facts.callers()
+        checked = set(k for k in member if facts.bodies[k].api or facts.bodies[k].container == "trait_impl" or not callers_.get(k))
+        member_names = sorted(set(facts.bodies[k].name for k in checked))
+        for k in sorted(checked):
+            r = facts.bodies[k]
+            if r.container == "trait" or (only is not None and not only(r)):
+                continue
+
+            def fam(c, r=r):
+                if c.key == r.key or c.resolved_key == r.key:
+                    return False
+                return c.name in names or c.key in checked or c.resolved_key in checked
+            fam.__name__ = "/".join(sorted(names))
+            report.touched(r, config)
+            from . import semq as Q
+            from .semcov import evaluate
+            # siblings of the table called on the object as a whole (`self.dispatch_par(w); self.dispatch_thread_local(w)`) are
+            # looked into; other unlisted methods called that way are held to the rule themselves: delegation
+            try:
+                ev, ends = evaluate(prog, r, member_names, (), set())
+            except Exception as e:
+                report.ob(rule, "%s/%s/receivers" % (family, r.qname), False, "%s could not be evaluated (%s)" % (r.qname, e), site=r.loc(), config=config)
+                continue
+            delegated = False
+            own = []
+            for e in ends:
+                if e.kind != "return":
+                    continue
+                for x in Q.calls_in(e.path.events, fam, deep=True):
+                    if not x[3]:
+                        continue
+                    if Q.strip(ev, x[3][0]) == ("param", 1) and (x[2].key in checked or x[2].resolved_key in checked):
+                        delegated = True
+                    elif not all(o[0] == "param" and o[1] != 1 for o in Q.origins(ev, x[3][0])):
+                        own.append(x)
+            statuses = []
+            for path in carrier_paths(facts, r.self_head):
+                fl = ".".join(path)
+                n += 1
+                cov = coverage(prog, r, Src(SELF, path), fam, vacuous=True, extra_opaque=member_names, keep=set())
+                statuses.append(cov.status)
+                ok = cov.status in ("once", "never")
+                if family == DISPOSE and len(path) == 1 and cov.status == "never" and not delegated and not r.locals[1]["ty"].startswith("&"):
+                    # it consumes the carrier: what it does not hand to dispose is dropped without its hook ever running
+                    ok = False
+                report.ob(rule, "%s/%s/%s" % (family, r.qname, fl), ok,
+                          ("not in the table of lifecycle methods; %s" % cov.detail) if ok else
+                          "%s is not a listed lifecycle method, yet hands the systems in `%s` to the %s family, and not each exactly once: %s" % (r.qname, fl, family, cov.detail),
+                          site=(cov.sites[0] if cov.sites else r.loc()), config=config)
+            if statuses and all(st == "never" for st in statuses):
+                # it does call the family, yet on no carrier field as a whole: on what, then?  Fine if on something it was
+                # handed (a dispatcher passed in by the caller) or on itself as a whole through another method held to this
+                # rule; anything of its own it runs piecemeal is not
+                report.ob(rule, "%s/%s/receivers" % (family, r.qname), not own,
+                          "family calls only on what the caller handed in, or on the object as a whole" if not own else
+                          "%s hands part of what it holds to %s (%s) without a complete traversal of a carrier field" % (r.qname, own[0][2].name, ev.loc(own[0][1])),
+                          site=(ev.loc(own[0][1]) if own else r.loc()), config=config)
+    report.ob(rule, "UNLISTED/inventory", True, "%d (unlisted carrier method, field) pair(s) held to all-or-nothing coverage" % n, config=config)
+
+
 def _family_pred(names, body):
     def fam(c):
         if c.name not in names:
@@ -257,6 +432,7 @@ def carrier_inventory(ctx, report, rule, facts, config):
         A.PARSEQ: ["run"],
     }
     carriers = set(known)
+    found = found_carriers(facts)
     marks = ["RunNow<", "RunNow ", "RunNow+", "dyn for<'a> " + A.T_RUNNOW]
     n = 0
     # a private record that no other type of the crate stores (what a function hands to its caller and is taken apart
@@ -269,6 +445,11 @@ def carrier_inventory(ctx, report, rule, facts, config):
                     if path3 != path2 and (path3 + "<" in f2["ty"] or f2["ty"] == path3 or f2["ty"].endswith(path3) or (path3 + ">") in f2["ty"] or (path3 + ",") in f2["ty"]):
                         stored.add(path3)
     for path, adt in sorted(facts.adts.items()):
+        if path in found:
+            n += len(found[path])
+            report.ob(rule, "CARRIER/%s" % path, True, "not in the audited table; it implements a lifecycle trait and keeps systems in %s: its lifecycle methods are held to "
+                      "all-or-nothing coverage (UNLISTED) and to the sibling rule" % found[path], site="%s:%d" % (adt["span"]["file"], adt["span"]["line"]), config=config)
+            continue
         if path not in known and path not in stored and not adt.get("pub") and str(adt.get("kind", "")).lower() == "struct":
             continue
         for v in adt["variants"]:
@@ -303,6 +484,8 @@ def lifecycle_siblings(ctx, report, rule, facts, config, exceptions=None):
     another one."""
     exceptions = exceptions or {}
     carriers = {A.BCS: "dispatcher", A.SD: "stages", A.DISP: "inner", A.PARSEQ: "run", A.STAGE: "groups"}
+    for head_, fls_ in found_carriers(facts).items():
+        carriers[head_] = fls_[0]
     n = 0
     for im in facts.impls:
         tr = im.get("trait")
